@@ -281,6 +281,9 @@ func init() {
 		}
 		return os2ipTerms(bs)
 	}
+	specFuncs["swu_y"] = func(env *SpecEnv, n *ast.CallExpr) Value {
+		return mkApp("swu_y", SFp, env.term(n.Args[0]))
+	}
 	specFuncs["rdstate"] = func(env *SpecEnv, n *ast.CallExpr) Value {
 		v := env.eval(n.Args[0])
 		id, ok := env.e.objID(v)
@@ -485,6 +488,33 @@ func init() {
 			bs = append(bs, mkSelect(out, mkInt64(i)))
 		}
 		return os2ipTerms(bs)
+	}
+	// hashsl(s, i, j): big-endian integer of digest bytes i..j-1 of state s
+	specFuncs["hashsl"] = func(env *SpecEnv, n *ast.CallExpr) Value {
+		s, i, j := env.term(n.Args[0]), env.term(n.Args[1]), env.term(n.Args[2])
+		if !i.IsConst() || !j.IsConst() {
+			env.fail("hashsl needs constant bounds")
+		}
+		out := hashoutArr(s)
+		var bs []*Term
+		for k := i.Val.Int64(); k < j.Val.Int64(); k++ {
+			bs = append(bs, mkSelect(out, mkInt64(k)))
+		}
+		return os2ipTerms(bs)
+	}
+	// hashbytes(x, s, i0): the bytes of x (constant length n) are digest bytes i0 .. i0+n-1 of state s
+	specFuncs["hashbytes"] = func(env *SpecEnv, n *ast.CallExpr) Value {
+		els := env.elemsOf(env.eval(n.Args[0]), n.Args[0])
+		s, i0 := env.term(n.Args[1]), env.term(n.Args[2])
+		if !i0.IsConst() {
+			env.fail("hashbytes needs a constant offset")
+		}
+		out := hashoutArr(s)
+		var cs []*Term
+		for k, b := range els {
+			cs = append(cs, mkEq(b, mkSelect(out, mkInt64(i0.Val.Int64()+int64(k)))))
+		}
+		return mkAnd(cs...)
 	}
 	specFuncs["hashbyte"] = func(env *SpecEnv, n *ast.CallExpr) Value {
 		return mkSelect(hashoutArr(env.term(n.Args[0])), env.term(n.Args[1]))
